@@ -146,3 +146,33 @@ package jobconfigcontroller
 //@   ensures [C15] job-event-requeues-the-owner-jobconfig: typeis(obj, *execution.Job) && ownerOf(unbox(obj, *execution.Job)) != nil ==> addN == old(addN) + 1
 //@        && addKey[old(addN)] == iface(nsname(ownerOf(unbox(obj, *execution.Job)).Namespace, ownerOf(unbox(obj, *execution.Job)).Name))
 //@   ensures [C15] at-most-one: addN == old(addN) || addN == old(addN) + 1
+
+// The handlers NewInformerWorker registers. $1 is the UpdateFunc for JobConfigs, $2 the UpdateFunc for Jobs: every update
+// event re-queues (no update is filtered away: a status that is stale for any reason is recomputed on the next event).
+// NOT EXPRESSED: that the function values stored in the registered handler structs are these closures (function values are
+// opaque to the verifier); the contract on NewInformerWorker below only says that all six handlers are set.
+//@ func NewInformerWorker$1
+//@   tags C15
+//@   requires w != nil
+//@   modifies addN, addKey
+//@   ensures [C15] every-jobconfig-update-requeues-the-jobconfig: typeis(newObj, *execution.JobConfig) ==> addN == old(addN) + 1
+//@        && addKey[old(addN)] == iface(nsname(unbox(newObj, *execution.JobConfig).Namespace, unbox(newObj, *execution.JobConfig).Name))
+//@   ensures [C15] at-most-one: addN == old(addN) || addN == old(addN) + 1
+
+//@ func NewInformerWorker$2
+//@   tags C15
+//@   requires w != nil
+//@   modifies addN, addKey
+//@   ensures [C15] every-job-update-requeues-the-owner-jobconfig: typeis(newObj, *execution.Job) && ownerOf(unbox(newObj, *execution.Job)) != nil ==> addN == old(addN) + 1
+//@        && addKey[old(addN)] == iface(nsname(ownerOf(unbox(newObj, *execution.Job)).Namespace, ownerOf(unbox(newObj, *execution.Job)).Name))
+//@   ensures [C15] at-most-one: addN == old(addN) || addN == old(addN) + 1
+
+//@ func NewInformerWorker
+//@   tags C15
+//@   requires ctrlContext != nil
+//@   modifies regN, regHandler
+//@   ensures [C15] both-informers-get-handlers: regN == old(regN) + 2
+//@   ensures [C15] add-update-delete-all-handled: forall k int :: old(regN) <= k && k < regN ==> typeis(regHandler[k], cache.ResourceEventHandlerFuncs)
+//@        && unbox(regHandler[k], cache.ResourceEventHandlerFuncs).AddFunc != nil
+//@        && unbox(regHandler[k], cache.ResourceEventHandlerFuncs).UpdateFunc != nil
+//@        && unbox(regHandler[k], cache.ResourceEventHandlerFuncs).DeleteFunc != nil
